@@ -2047,7 +2047,8 @@ func (r *Runner) transferCapture(capnum, uncapnum, start, end int) {
 		end = start
 		start = end2
 	} else if end <= start2 {
-		start = start2
+		// the matched text lies before the balanced capture: the interval between them
+		start, end = end, start2
 	} else {
 		if end > end2 {
 			end = end2
